@@ -235,7 +235,7 @@ func findInlineNode(file *ast.File, comment *ast.Comment, fset *token.FileSet) (
 
 // findNextNodeAfterComment finds the end position of the scope affected by @ignore comment.
 // If comment is before a declaration (func, type, etc), returns the end of that declaration.
-// If comment is inside a declaration, finds the next statement after comment.
+// If comment is inside a declaration, returns the end of the next node (statement) after the comment.
 // Returns token.NoPos if no node found after comment.
 func findNextNodeAfterComment(file *ast.File, commentPos token.Pos) token.Pos {
 	// Binary search to find the declaration that contains or follows the comment
@@ -257,7 +257,9 @@ func findNextNodeAfterComment(file *ast.File, commentPos token.Pos) token.Pos {
 	}
 
 	// Comment is inside this declaration - find the next node after comment
+	// and return its end, so that the scope covers that whole node
 	var nextPos = token.NoPos
+	var nextEnd = token.NoPos
 
 	ast.Inspect(decl, func(n ast.Node) bool {
 		if n == nil {
@@ -272,6 +274,7 @@ func findNextNodeAfterComment(file *ast.File, commentPos token.Pos) token.Pos {
 		// Found a node after comment
 		if nextPos == token.NoPos || n.Pos() < nextPos {
 			nextPos = n.Pos()
+			nextEnd = n.End()
 			// Stop searching once we found the first node
 			return false
 		}
@@ -279,5 +282,5 @@ func findNextNodeAfterComment(file *ast.File, commentPos token.Pos) token.Pos {
 		return true
 	})
 
-	return nextPos
+	return nextEnd
 }
